@@ -444,7 +444,7 @@ static std::shared_ptr<ob::PlannerData> build(GraphEnv &E, const GraphSpec &g)
             mark(i);
     for (int i = 0; i < n; ++i)
         for (int j = 0; j < n; ++j)
-            if (i != j && g.edge[i * n + j])
+            if (g.edge[i * n + j])  // (i == j: a self-loop edge, which addEdge allows)
             {
                 double w = g.edge[i * n + j] == 1 ? 0.5 : 2.0;
                 if (g.control)
@@ -501,7 +501,7 @@ static std::string expected(GraphEnv &E, const GraphSpec &g)
         ns += (g.type[i] & 1) != 0;
         ng += (g.type[i] & 2) != 0;
         for (int j : keep)
-            if (i != j && g.edge[i * g.n + j])
+            if (g.edge[i * g.n + j])
                 ++ne;
     }
     std::string s = "V" + std::to_string(nv) + " E" + std::to_string(ne) + " S" + std::to_string(ns) + " G" + std::to_string(ng) + ";";
@@ -519,7 +519,7 @@ static std::string expected(GraphEnv &E, const GraphSpec &g)
         for (size_t b = 0; b < keep.size(); ++b)
         {
             int i = keep[a], j = keep[b];
-            if (i != j && g.edge[i * g.n + j])
+            if (g.edge[i * g.n + j])
             {
                 s += " " + std::to_string(a) + ">" + std::to_string(b) + ":" + vf::jnum(g.edge[i * g.n + j] == 1 ? 0.5 : 2.0);
                 if (g.control)
@@ -637,6 +637,18 @@ static void forEachGraph(int n, bool control, bool thorough, const std::function
                     g.markDescending = desc;
                     if (n <= 1 && desc)
                         continue;
+                    // self-loop edges (v -> v): every assignment for n <= 2, none for larger graphs
+                    long nLoop = 1;
+                    for (int i = 0; i < (n <= 2 ? n : 0); ++i)
+                        nLoop *= 3;
+                    for (long sl = 0; sl < nLoop; ++sl)
+                    {
+                        long y = sl;
+                        for (int i = 0; i < n; ++i, y /= 3)
+                            g.edge[i * n + i] = n <= 2 ? y % 3 : 0;
+                        f(g);
+                    }
+                    continue;
                     f(g);
                 }
 }
